@@ -14,8 +14,13 @@ def main():
     f, old, new, _ = MUTANTS[name]
     path = os.path.join("/repo", f)
     s = open(path).read()
-    assert s.count(old) == 1, (name, s.count(old))
-    open(path, "w").write(s.replace(old, new))
+    olds, news = (old, new) if isinstance(old, list) else ([old], [new])
+    for k, o in enumerate(olds):
+        assert s.count(o) == 1, (name, s.count(o))
+        s = s.replace(o, f"@@MUT{k}@@")
+    for k, n in enumerate(news):
+        s = s.replace(f"@@MUT{k}@@", n)
+    open(path, "w").write(s)
     try:
         for p in props:
             r = subprocess.run(["/verif/check", p] + sys.argv[3:], stdout=subprocess.PIPE, stderr=subprocess.STDOUT, text=True)
